@@ -1,6 +1,7 @@
-#!/bin/sh
+#!/bin/bash
 # developer helper: run every check's quick tier for a range of VERIF_SEED values and list the alarms
 #   tools/seed_sweep.sh <first> <last> [props...]        (writes sweep_<first>_<last>.txt in the current directory)
+# at most $SWEEP_JOBS (default 3) checks at a time: each check already uses up to 16 processes
 HERE="$(cd "$(dirname "$0")/.." && pwd)"
 cd "$HERE"
 A=$1; B=$2; shift 2
@@ -8,24 +9,22 @@ PROPS="${*:-C01 C02 C03 C04 C05 C06 C07 C08 C09 C10 C11 C12 C13 C14 C15 C16 C17 
 [ -x .venv/bin/python ] || ./setup.sh
 OUT="$HERE/sweep_${A}_${B}.txt"
 : > "$OUT"
-s=$A
-while [ "$s" -le "$B" ]; do
-  for p in $PROPS; do
-    (
-      R=$(mktemp -d /tmp/sweep.XXXXXX)
-      VERIF_SEED=$s VERIF_OUTROOT=$R ./check $p --tier quick > $R/log 2>&1
-      rc=$?
-      if [ $rc -ne 0 ]; then
-        echo "seed=$s $p exit=$rc" >> "$OUT"
-        grep -E "^VIOLATION|CHECKER ERROR|Traceback|Error" $R/log | cut -c1-300 | sed "s/^/   seed=$s /" >> "$OUT"
-      fi
-      rm -rf $R
-    ) &
-    # at most 5 at a time
-    while [ "$(jobs -r | wc -l)" -ge 5 ]; do sleep 1; done
-  done
-  s=$((s+1))
-done
-wait
+one() {
+  s=$1; p=$2
+  R=$(mktemp -d /tmp/sweep.XXXXXX)
+  VERIF_SEED=$s VERIF_OUTROOT=$R ./check $p --tier quick > $R/log 2>&1
+  rc=$?
+  if [ $rc -ne 0 ]; then
+    {
+      echo "seed=$s $p exit=$rc"
+      grep -E "^VIOLATION|CHECKER ERROR|Traceback|Error" $R/log | cut -c1-300 | sed "s/^/   seed=$s /"
+      grep -h -A3 '"detail"' $R/out/replay/$p/*.json 2>/dev/null | cut -c1-400 | head -12 | sed "s/^/      /"
+    } >> "$OUT"
+  fi
+  rm -rf $R
+}
+export -f one
+export OUT
+for s in $(seq $A $B); do for p in $PROPS; do echo "$s $p"; done; done | xargs -P "${SWEEP_JOBS:-3}" -L 1 bash -c 'one $0 $1'
 echo "done" >> "$OUT"
 cat "$OUT"
